@@ -257,7 +257,11 @@ func (e *Enc) eval(sx *Sx, env *evalEnv) tv {
 		if srt := e.sortOf(st.Elem()); (srt == "Ref" || srt == "Slice") && len(env.bound) == 0 {
 			e.loadedRefFacts(env.heap, cellKey(st.Elem()), srt, addr)
 		}
-		return tv{Val{e.load(env.heap, addr, nil, st.Elem()), e.sortOf(st.Elem())}, st.Elem()}
+		lv := e.load(env.heap, addr, nil, st.Elem())
+		if len(env.bound) == 0 {
+			e.assert(e.typeFacts(lv, st.Elem()))
+		}
+		return tv{Val{lv, e.sortOf(st.Elem())}, st.Elem()}
 	case "deref":
 		x := e.eval(args[0], env)
 		pt, ok := under(x.t).(*types.Pointer)
@@ -265,7 +269,11 @@ func (e *Enc) eval(sx *Sx, env *evalEnv) tv {
 			e.unsupp("deref: %s is not a pointer", args[0])
 			return x
 		}
-		return tv{Val{e.load(env.heap, x.v.T, nil, pt.Elem()), e.sortOf(pt.Elem())}, pt.Elem()}
+		lv := e.load(env.heap, x.v.T, nil, pt.Elem())
+		if len(env.bound) == 0 {
+			e.assert(e.typeFacts(lv, pt.Elem()))
+		}
+		return tv{Val{lv, e.sortOf(pt.Elem())}, pt.Elem()}
 	case "old":
 		n := *env
 		n.heap = env.old
@@ -334,6 +342,28 @@ func (e *Enc) eval(sx *Sx, env *evalEnv) tv {
 			}
 		}
 		return tv{Val{e.heapGet(env.heap, key, srt), "(Array Ref " + srt + ")"}, nil}
+	case "cast":
+		// (cast <go type> e): give an untyped reference its Go type so that fields can be selected
+		t := e.w.lookupType(args[0].Atom)
+		x := e.eval(args[1], env)
+		if t == nil {
+			e.unsupp("cast: unknown type %s", args[0].Atom)
+			return x
+		}
+		return tv{x.v, t}
+	case "mapget":
+		// (mapget m k GoValueType-sort) : value stored under key k
+		m := e.eval(args[0], env)
+		k := e.eval(args[1], env)
+		srt := "Ref"
+		if len(args) > 2 {
+			srt = args[2].String()
+		}
+		return tv{Val{e.mapGet(env.heap, m.v, k.v, srt), srt}, nil}
+	case "maphas":
+		m := e.eval(args[0], env)
+		k := e.eval(args[1], env)
+		return tv{Val{e.mapHas(env.heap, m.v, k.v), "Bool"}, nil}
 	case "consumed":
 		x := e.eval(args[0], env)
 		t := app("select", e.heapGet(env.heap, "$consumed", "Int"), x.v.T)
@@ -397,6 +427,11 @@ func (e *Enc) eval(sx *Sx, env *evalEnv) tv {
 }
 
 func (e *Enc) rawFunSort(name string) (string, bool) {
+	if d, ok := e.cs.SmtFuns[name]; ok {
+		if es, err := parseSxAll(d[0]); err == nil && len(es) == 1 && len(es[0].List) >= 4 {
+			return es[0].List[3].String(), true
+		}
+	}
 	for _, l := range e.cs.Raw {
 		es, err := parseSxAll(l)
 		if err != nil {
@@ -488,7 +523,11 @@ func (e *Enc) autoDeref(x tv, env *evalEnv) tv {
 		if pt, ok := under(x.t).(*types.Pointer); ok {
 			switch under(pt.Elem()).(type) {
 			case *types.Slice, *types.Basic:
-				return tv{Val{e.load(env.heap, x.v.T, nil, pt.Elem()), e.sortOf(pt.Elem())}, pt.Elem()}
+				lv := e.load(env.heap, x.v.T, nil, pt.Elem())
+				if len(env.bound) == 0 {
+					e.assert(e.typeFacts(lv, pt.Elem()))
+				}
+				return tv{Val{lv, e.sortOf(pt.Elem())}, pt.Elem()}
 			}
 		}
 	}
@@ -527,7 +566,11 @@ func (e *Enc) fieldOf(base tv, field string, env *evalEnv) tv {
 		if srt := e.sortOf(ft); (srt == "Ref" || srt == "Slice") && len(env.bound) == 0 {
 			e.loadedRefFacts(env.heap, e.w.fieldKey(name, st, i), srt, addr)
 		}
-		return tv{Val{e.loadField(env.heap, base.v.T, name, st, i), e.sortOf(ft)}, ft}
+		lv := e.loadField(env.heap, base.v.T, name, st, i)
+		if len(env.bound) == 0 {
+			e.assert(e.typeFacts(lv, ft)) // heap cells hold well-typed values
+		}
+		return tv{Val{lv, e.sortOf(ft)}, ft}
 	}
 	// promoted field through an embedded struct
 	for i := 0; i < st.NumFields(); i++ {
@@ -616,7 +659,8 @@ func (e *Enc) useSpec(sf *SpecFn) {
 	}
 	if sf.Def == nil {
 		for _, p := range sf.Params {
-			ps = append(ps, p.Sort)
+			srt, _ := e.specParamType(p.Sort)
+			ps = append(ps, srt)
 		}
 		e.specDecls = append(e.specDecls, fmt.Sprintf("(declare-fun spec_%s (%s) %s)", sf.Name, strings.Join(ps, " "), sf.Ret))
 		return
